@@ -21,7 +21,7 @@ from spec_classes import Attr, spec_class  # noqa: E402
 
 from vf.sym import Ob, Skip, Violation, assume, check, pick  # noqa: E402
 
-SHAPES = ["attrs", "lazy-parent", "own-new", "base-new", "keyed"]
+SHAPES = ["attrs", "lazy-parent", "own-new", "base-new", "keyed", "new-positional"]
 
 
 def make_class(shape, bootstrap):
@@ -72,6 +72,18 @@ def make_class(shape, bootstrap):
             a: int = Attr(default=3)
             l: List[int] = Attr(default_factory=lambda: [1])
 
+    elif shape == "new-positional":
+
+        @spec_class(key="name", bootstrap=bootstrap)
+        class C:
+            name: str
+            a: int = Attr(default=3)
+
+            def __new__(cls, name, **kwargs):  # REQUIRES its positional argument
+                self = super().__new__(cls)
+                object.__setattr__(self, "_made", name)
+                return self
+
     else:
 
         @spec_class(key="k", bootstrap=bootstrap)
@@ -82,7 +94,11 @@ def make_class(shape, bootstrap):
     class Sub(C):
         pass
 
+    ARGS[C] = ARGS[Sub] = ("kk",) if shape == "new-positional" else ()
     return C, Sub
+
+
+ARGS = {}  # class -> positional constructor arguments used by the harness
 
 
 def describe(cls):
@@ -111,7 +127,7 @@ def first_use(C, Sub, trigger, after_trigger=None):
     triggering access itself (the preemption window is the trigger, not the observation that follows)."""
     done = after_trigger or (lambda: None)
     if trigger == "instantiate":
-        o = C()
+        o = C(*ARGS[C])
         done()
         return {"inst": repr(o), "made": getattr(o, "_made", None), "desc": describe(C)}
     if trigger == "metadata":  # a pure lookup: the thread inspects the class, it does not instantiate it
@@ -123,7 +139,7 @@ def first_use(C, Sub, trigger, after_trigger=None):
         done()
         return {"desc": describe(C)}
     if trigger == "subclass":
-        o = Sub()
+        o = Sub(*ARGS[Sub])
         done()
         r = repr(o).replace("Sub(", "C(", 1)
         return {"inst": r, "made": getattr(o, "_made", None), "desc": describe(C)}
